@@ -93,6 +93,14 @@ var toleratedErrors = map[string]string{
 var benignUnreadErrors = map[string]string{
 	"(io.Writer).Write":                        "writes into a hash.Hash (never fails) — makePermSignature, HashCheckingReader, collisionOrCorrupt",
 	"io.WriteString":                           "write into an hmac hash (never fails)",
+	"(*strings.Builder).WriteString":           "in-memory builder: documented to always return a nil error",
+	"(*strings.Builder).WriteByte":             "in-memory builder: documented to always return a nil error",
+	"(*strings.Builder).WriteRune":             "in-memory builder: documented to always return a nil error",
+	"(*strings.Builder).Write":                 "in-memory builder: documented to always return a nil error",
+	"(*bytes.Buffer).WriteString":              "in-memory buffer: the error is always nil",
+	"(*bytes.Buffer).WriteByte":                "in-memory buffer: the error is always nil",
+	"(*bytes.Buffer).WriteRune":                "in-memory buffer: the error is always nil",
+	"(*bytes.Buffer).Write":                    "in-memory buffer: the error is always nil",
 	"(net/http.ResponseWriter).Write":          "response body write: the client is gone if it fails, nothing to undo",
 	"(io.Closer).Close":                        "closing a response body / reader after its content was consumed or on an error path",
 	"(*os.File).Close":                         "closing a read-only descriptor or a temp file on an error path (the publishing Close is checked by C02-R1)",
